@@ -19,7 +19,14 @@ import (
 	"verif/explore"
 )
 
-const Root = "/verif"
+// Root is the verification directory (evidence, replays and known findings live there). VERIF_HOME overrides
+// it for sweeps that run on a copy; registered commands never set it.
+var Root = func() string {
+	if h := os.Getenv("VERIF_HOME"); h != "" {
+		return h
+	}
+	return "/verif"
+}()
 
 // Part is one sub-exploration of a check.
 type Part struct {
